@@ -3,6 +3,7 @@
   see DESIGN.md section 6).
 -/
 import CdsVerif.Base.Spec
+import CdsVerif.Base.LocalityMap
 namespace CdsVerif.Props.C14
 open CdsVerif.Lin CdsVerif.Spec
 
@@ -11,5 +12,36 @@ open CdsVerif.Lin CdsVerif.Spec
 theorem C14_history_oracle_exact  (ops : List (OpRec GOp GRet)) (hwf : ∀ o ∈ ops, o.inv ≤ o.res) :
     linCheck map ops = true ↔ Linearizable map ops :=
   linCheck_iff _ ops hwf
+
+/-- **Locality for hash tables.**  MichaelHashSet / MichaelHashMap is an array of independent ordered lists and
+    every operation works on the one list chosen by the hash of its key.  Whenever the sub-history of every
+    bucket is a linearizable history of the map specification (which is what C13 states for the bucket
+    containers), the history of the whole table is a linearizable history of the map specification.  `h` is an
+    arbitrary bucket function (any hash, any table size, colliding hashes included); the history contains
+    keyed operations only (insert / update / upsert / erase / extract / find / contains). -/
+theorem C14_table_of_linearizable_buckets (h : Int → Nat) (ops : List (OpRec GOp GRet))
+    (hwf : ∀ o ∈ ops, o.inv ≤ o.res)
+    (hkeyed : ∀ o ∈ ops, (keyOf o.op).isSome = true)
+    (hb : ∀ i, Linearizable map (sub (routeBy h) i ops)) :
+    Linearizable map ops :=
+  hashed_map_linearizable h ops hwf hkeyed hb
+
+/-- General form (Herlihy–Wing locality): a composite of independent objects is linearizable as soon as every
+    component's sub-history is. -/
+theorem C14_locality {σ : Type} (spec : Spec σ GOp GRet) (route : GOp → Nat) (s : Nat → σ)
+    (ops : List (OpRec GOp GRet)) (hwf : ∀ o ∈ ops, o.inv ≤ o.res)
+    (h : ∀ i, LinearizableFrom spec (s i) (sub route i ops)) :
+    LinearizableFrom (prodSpec spec route s) s ops :=
+  locality spec route s ops hwf h
+
+/-- Non-vacuity: two buckets (key parity), overlapping operations on both. -/
+example :
+    let ops : List (OpRec GOp GRet) :=
+      [⟨0, ⟨"insert", [2, 7]⟩, [1], 1, 6⟩, ⟨1, ⟨"insert", [3, 8]⟩, [1], 2, 4⟩,
+       ⟨1, ⟨"find", [2]⟩, [1, 7], 5, 8⟩, ⟨0, ⟨"erase", [3]⟩, [1, 8], 7, 9⟩]
+    (∀ o ∈ ops, (keyOf o.op).isSome = true) ∧
+    linCheck map (sub (routeBy (fun k => k.toNat % 2)) 0 ops) = true ∧
+    linCheck map (sub (routeBy (fun k => k.toNat % 2)) 1 ops) = true ∧
+    linCheck map ops = true := by decide
 
 end CdsVerif.Props.C14
